@@ -90,11 +90,12 @@ def gen_cases(tier):
     # bundled real-world networks: the expected element / charge drift is computed per reaction from /verif's own compositions
     # (zero for every balanced reaction), so unbalanced reactions of a database network do not raise false alarms
     r = random.Random(rng.getrandbits(64))
-    for ex, bes in ([("primordial", None)] + ([("deuterium", ["dense", "sparse"])] if tier == "thorough" else [])):
+    for ex, bes in ([("primordial", None)] + ([("deuterium", ["dense", "sparse"]), ("cloud", ["dense", "sparse", "odeint"])] if tier == "thorough" else [])):
         c = c01.bundled_case(ex, r, backends=bes)
         c.pop("cooling", None)           # conservation is a statement about the chemical equations
         c["ks"] = [[r.choice([-1, 1]) * 10 ** r.uniform(-20, 20) for _ in range(len(c["net"]["reactions"]))] for _ in range(2)]
-        c["bundled_no_thermal"] = True
+        if ex != "cloud":
+            c["bundled_no_thermal"] = True
         cases.append(c)
     return cases
 
@@ -138,7 +139,7 @@ def run_case(case, ctx):
     obs, viol = Counter(), []
     backends = case.get("backends") or ["dense", "sparse", "cusparse", "odeint"]
     orig = S.build_network
-    if case.get("bundled"):
+    if case.get("bundled") and case.get("bundled_no_thermal"):
         def build_bundled(c, work):
             import importlib
             from naunet.network import Network
@@ -148,6 +149,8 @@ def run_case(case, ctx):
             return Network(filelist=str(common.REPO / "naunet" / "examples" / c["bundled"] / mod.files), fileformats=mod.formats, elements=list(mod.elements),
                            pseudo_elements=list(mod.pseudo_elements), allowed_species=list(mod.allowed_species), required_species=list(mod.extra_species))
         S.build_network = build_bundled
+    elif case.get("bundled"):
+        S.build_network = orig            # configured the way the example module configures it (replacement table, ice species, ODE modifiers)
     else:
         S.build_network = build_network
     try:
